@@ -68,7 +68,8 @@ fn eof_lemma(f: Framing, n: usize) {
         Framing::UntilClose => false,
     };
     src.extend_from_slice(&bytes[..n]);
-    let mut c = codec(Some(pl));
+    // ManuallyDrop: the dangling config must never be dropped, not even when a failed assertion unwinds
+    let mut c = core::mem::ManuallyDrop::new(codec(Some(pl)));
 
     let r = c.decode_eof(&mut src);
 
@@ -107,233 +108,100 @@ fn eof_lemma(f: Framing, n: usize) {
     kani::cover!(true, "harness end reached");
     forget(r);
     forget(src);
-    forget(c);
 }
 
-// ---- harness instances (generated)
+// ---- harness instances (generated): unread byte count concrete, groups of decoder positions in turn
 #[kani::proof]
 #[kani::unwind(8)]
-fn c17_eof_length_b0() {
+fn c17_eof_length_and_until_close_b0() {
     eof_lemma(Framing::Length, 0);
-}
-#[kani::proof]
-#[kani::unwind(8)]
-fn c17_eof_until_close_b0() {
     eof_lemma(Framing::UntilClose, 0);
 }
 #[kani::proof]
 #[kani::unwind(8)]
-fn c17_eof_chunked_start_b0() {
+fn c17_eof_chunked_size_line_b0() {
     eof_lemma(Framing::Chunked(b"", false), 0);
-}
-#[kani::proof]
-#[kani::unwind(8)]
-fn c17_eof_chunked_size_b0() {
     eof_lemma(Framing::Chunked(b"1", false), 0);
-}
-#[kani::proof]
-#[kani::unwind(8)]
-fn c17_eof_chunked_size_lws_b0() {
     eof_lemma(Framing::Chunked(b"1 ", false), 0);
-}
-#[kani::proof]
-#[kani::unwind(8)]
-fn c17_eof_chunked_ext_b0() {
     eof_lemma(Framing::Chunked(b"1;x", false), 0);
-}
-#[kani::proof]
-#[kani::unwind(8)]
-fn c17_eof_chunked_size_lf_b0() {
     eof_lemma(Framing::Chunked(b"1\r", false), 0);
 }
 #[kani::proof]
 #[kani::unwind(8)]
-fn c17_eof_chunked_body_b0() {
+fn c17_eof_chunked_data_b0() {
     eof_lemma(Framing::Chunked(b"2\r\n", false), 0);
-}
-#[kani::proof]
-#[kani::unwind(8)]
-fn c17_eof_chunked_body_mid_b0() {
     eof_lemma(Framing::Chunked(b"2\r\na", false), 0);
-}
-#[kani::proof]
-#[kani::unwind(8)]
-fn c17_eof_chunked_body_cr_b0() {
     eof_lemma(Framing::Chunked(b"1\r\na", false), 0);
-}
-#[kani::proof]
-#[kani::unwind(8)]
-fn c17_eof_chunked_body_lf_b0() {
     eof_lemma(Framing::Chunked(b"1\r\na\r", false), 0);
 }
 #[kani::proof]
 #[kani::unwind(8)]
-fn c17_eof_chunked_next_size_b0() {
-    eof_lemma(Framing::Chunked(b"1\r\na\r\n", false), 0);
-}
-#[kani::proof]
-#[kani::unwind(8)]
-fn c17_eof_chunked_end_cr_b0() {
-    eof_lemma(Framing::Chunked(b"0\r\n", false), 0);
-}
-#[kani::proof]
-#[kani::unwind(8)]
-fn c17_eof_chunked_end_lf_b0() {
-    eof_lemma(Framing::Chunked(b"0\r\n\r", false), 0);
-}
-#[kani::proof]
-#[kani::unwind(8)]
 fn c17_eof_chunked_end_b0() {
+    eof_lemma(Framing::Chunked(b"1\r\na\r\n", false), 0);
+    eof_lemma(Framing::Chunked(b"0\r\n", false), 0);
+    eof_lemma(Framing::Chunked(b"0\r\n\r", false), 0);
     eof_lemma(Framing::Chunked(b"0\r\n\r\n", true), 0);
 }
 #[kani::proof]
 #[kani::unwind(8)]
-fn c17_eof_length_b1() {
+fn c17_eof_length_and_until_close_b1() {
     eof_lemma(Framing::Length, 1);
-}
-#[kani::proof]
-#[kani::unwind(8)]
-fn c17_eof_until_close_b1() {
     eof_lemma(Framing::UntilClose, 1);
 }
 #[kani::proof]
 #[kani::unwind(8)]
-fn c17_eof_chunked_start_b1() {
+fn c17_eof_chunked_size_line_b1() {
     eof_lemma(Framing::Chunked(b"", false), 1);
-}
-#[kani::proof]
-#[kani::unwind(8)]
-fn c17_eof_chunked_size_b1() {
     eof_lemma(Framing::Chunked(b"1", false), 1);
-}
-#[kani::proof]
-#[kani::unwind(8)]
-fn c17_eof_chunked_size_lws_b1() {
     eof_lemma(Framing::Chunked(b"1 ", false), 1);
-}
-#[kani::proof]
-#[kani::unwind(8)]
-fn c17_eof_chunked_ext_b1() {
     eof_lemma(Framing::Chunked(b"1;x", false), 1);
-}
-#[kani::proof]
-#[kani::unwind(8)]
-fn c17_eof_chunked_size_lf_b1() {
     eof_lemma(Framing::Chunked(b"1\r", false), 1);
 }
 #[kani::proof]
 #[kani::unwind(8)]
-fn c17_eof_chunked_body_b1() {
+fn c17_eof_chunked_data_b1() {
     eof_lemma(Framing::Chunked(b"2\r\n", false), 1);
-}
-#[kani::proof]
-#[kani::unwind(8)]
-fn c17_eof_chunked_body_mid_b1() {
     eof_lemma(Framing::Chunked(b"2\r\na", false), 1);
-}
-#[kani::proof]
-#[kani::unwind(8)]
-fn c17_eof_chunked_body_cr_b1() {
     eof_lemma(Framing::Chunked(b"1\r\na", false), 1);
-}
-#[kani::proof]
-#[kani::unwind(8)]
-fn c17_eof_chunked_body_lf_b1() {
     eof_lemma(Framing::Chunked(b"1\r\na\r", false), 1);
 }
 #[kani::proof]
 #[kani::unwind(8)]
-fn c17_eof_chunked_next_size_b1() {
-    eof_lemma(Framing::Chunked(b"1\r\na\r\n", false), 1);
-}
-#[kani::proof]
-#[kani::unwind(8)]
-fn c17_eof_chunked_end_cr_b1() {
-    eof_lemma(Framing::Chunked(b"0\r\n", false), 1);
-}
-#[kani::proof]
-#[kani::unwind(8)]
-fn c17_eof_chunked_end_lf_b1() {
-    eof_lemma(Framing::Chunked(b"0\r\n\r", false), 1);
-}
-#[kani::proof]
-#[kani::unwind(8)]
 fn c17_eof_chunked_end_b1() {
+    eof_lemma(Framing::Chunked(b"1\r\na\r\n", false), 1);
+    eof_lemma(Framing::Chunked(b"0\r\n", false), 1);
+    eof_lemma(Framing::Chunked(b"0\r\n\r", false), 1);
     eof_lemma(Framing::Chunked(b"0\r\n\r\n", true), 1);
 }
 #[kani::proof]
 #[kani::unwind(8)]
-fn c17_eof_length_b2_t() {
+fn c17_eof_length_and_until_close_b2_t() {
     eof_lemma(Framing::Length, 2);
-}
-#[kani::proof]
-#[kani::unwind(8)]
-fn c17_eof_until_close_b2_t() {
     eof_lemma(Framing::UntilClose, 2);
 }
 #[kani::proof]
 #[kani::unwind(8)]
-fn c17_eof_chunked_start_b2_t() {
+fn c17_eof_chunked_size_line_b2_t() {
     eof_lemma(Framing::Chunked(b"", false), 2);
-}
-#[kani::proof]
-#[kani::unwind(8)]
-fn c17_eof_chunked_size_b2_t() {
     eof_lemma(Framing::Chunked(b"1", false), 2);
-}
-#[kani::proof]
-#[kani::unwind(8)]
-fn c17_eof_chunked_size_lws_b2_t() {
     eof_lemma(Framing::Chunked(b"1 ", false), 2);
-}
-#[kani::proof]
-#[kani::unwind(8)]
-fn c17_eof_chunked_ext_b2_t() {
     eof_lemma(Framing::Chunked(b"1;x", false), 2);
-}
-#[kani::proof]
-#[kani::unwind(8)]
-fn c17_eof_chunked_size_lf_b2_t() {
     eof_lemma(Framing::Chunked(b"1\r", false), 2);
 }
 #[kani::proof]
 #[kani::unwind(8)]
-fn c17_eof_chunked_body_b2_t() {
+fn c17_eof_chunked_data_b2_t() {
     eof_lemma(Framing::Chunked(b"2\r\n", false), 2);
-}
-#[kani::proof]
-#[kani::unwind(8)]
-fn c17_eof_chunked_body_mid_b2_t() {
     eof_lemma(Framing::Chunked(b"2\r\na", false), 2);
-}
-#[kani::proof]
-#[kani::unwind(8)]
-fn c17_eof_chunked_body_cr_b2_t() {
     eof_lemma(Framing::Chunked(b"1\r\na", false), 2);
-}
-#[kani::proof]
-#[kani::unwind(8)]
-fn c17_eof_chunked_body_lf_b2_t() {
     eof_lemma(Framing::Chunked(b"1\r\na\r", false), 2);
 }
 #[kani::proof]
 #[kani::unwind(8)]
-fn c17_eof_chunked_next_size_b2_t() {
-    eof_lemma(Framing::Chunked(b"1\r\na\r\n", false), 2);
-}
-#[kani::proof]
-#[kani::unwind(8)]
-fn c17_eof_chunked_end_cr_b2_t() {
-    eof_lemma(Framing::Chunked(b"0\r\n", false), 2);
-}
-#[kani::proof]
-#[kani::unwind(8)]
-fn c17_eof_chunked_end_lf_b2_t() {
-    eof_lemma(Framing::Chunked(b"0\r\n\r", false), 2);
-}
-#[kani::proof]
-#[kani::unwind(8)]
 fn c17_eof_chunked_end_b2_t() {
+    eof_lemma(Framing::Chunked(b"1\r\na\r\n", false), 2);
+    eof_lemma(Framing::Chunked(b"0\r\n", false), 2);
+    eof_lemma(Framing::Chunked(b"0\r\n\r", false), 2);
     eof_lemma(Framing::Chunked(b"0\r\n\r\n", true), 2);
 }
 
